@@ -929,10 +929,18 @@ def run(ctx, res):
         'random conversations; several connections sharing one keyring: every interleaving of start / finish / cancel / drop of '
         'up to 3 overlapping DBUS_COOKIE_SHA1 exchanges with clients that look their cookie up by id.  Non-trivial: at least two observed events'
         % ([a.decode() for a in ALPHABET], 3 if q else 4, 4 if q else 5, [a.decode() for a in SMALL], 5 if q else 6))
+    # command words outside the protocol for which THIS tree nevertheless has a handler (open getattr dispatch on
+    # '_auth_' + word): none on a correct tree (C06_commands_from_source breaks otherwise); they join the alphabets
+    from txdbus import authentication as _auth
+    known = {'AUTH', 'BEGIN', 'CANCEL', 'DATA', 'ERROR', 'NEGOTIATE_UNIX_FD'}
+    extra = [n[len('_auth_'):].encode('latin-1') for n in sorted(dir(_auth.BusAuthenticator))
+             if n.startswith('_auth_') and n[len('_auth_'):] not in known]
+    alpha14 = ALPHABET + extra + [e + b' 6162' for e in extra]
+    small8 = SMALL + extra
     batches = [
-        ('exhaustive-14-all-scripts', gen_exhaustive(ALPHABET, range(0, 4 if q else 5), [0, 1, 2])),
-        ('exhaustive-14-constant-scripts', gen_exhaustive(ALPHABET, [4] if q else [5], [0, 1, 2], 'const', True)),
-        ('exhaustive-8-constant-scripts', gen_exhaustive(SMALL, [5] if q else [5, 6], [0, 1, 2], 'const', True)),
+        ('exhaustive-14-all-scripts', gen_exhaustive(alpha14, range(0, 4 if q else 5), [0, 1, 2])),
+        ('exhaustive-14-constant-scripts', gen_exhaustive(alpha14, [4] if q else [5], [0, 1, 2], 'const', True)),
+        ('exhaustive-8-constant-scripts', gen_exhaustive(small8, [5] if q else [5, 6], [0, 1, 2], 'const', True)),
         ('framing', gen_framing(ctx)),
         ('random', gen_random(ctx, ctx.n(3000, 60000), 40)),
         ('concrete', gen_concrete(ctx, ctx.n(600, 12000))),
